@@ -57,6 +57,9 @@ def run(P, rep, tier):
     from . import c06
 
     rep.attempt(c06.r_unlink_threading, P, rep, ctx, "C08.R5")
+    # an emptied metadata directory that is left behind occupies a reserved sibling name: a later user copy / move onto that
+    # name fails half-way (cleanup rule of C06.R4)
+    rep.attempt(c06.r4_cleanup, P, rep, ctx)
     rep.floor("C08.R1", 25, "protocol members")
     rep.floor("C08.R2", 12, "tainted flows")
     rep.floor("C08.R3", 8)
